@@ -156,6 +156,8 @@ pub fn mtime_strategy() -> BoxedStrategy<Mtime> {
         1 => Just(Mtime::Future(86_400, 0)),
         1 => Just(Mtime::Future(86_400, 123_456_789)),
         1 => Just(Mtime::At(7_258_118_400, 0)), // year 2200
+        // recent: seconds to two minutes before the run (resolved when the case is generated)
+        1 => (0u64..130, prop_oneof![Just(0u32), 1u32..1_000_000_000]).prop_map(|(k, n)| Mtime::At(now_secs().saturating_sub(k), n)),
         1 => prop_oneof![Just(Mtime::Before(86_400, 0)), Just(Mtime::Before(0, 1)), Just(Mtime::Before(1, 500_000_000)), Just(Mtime::Before(3_000_000_000, 0))],
     ]
     .boxed()
@@ -166,7 +168,8 @@ pub fn past_mtime_strategy() -> BoxedStrategy<Mtime> {
     mtime_strategy()
         .prop_map(|m| match m {
             Mtime::Future(..) => Mtime::At(T0, 250_000_000),
-            Mtime::At(s, n) if s > 1_700_000_000 => Mtime::At(s % 1_700_000_000, n),
+            // recent times stay (at least 8 s old: well clear of the clamp), later ones are folded back
+            Mtime::At(s, n) if s > 1_700_000_000 && !(s + 8 <= now_secs() && s + 200 >= now_secs()) => Mtime::At(s % 1_700_000_000, n),
             m => m,
         })
         .boxed()
@@ -185,8 +188,21 @@ pub fn pstep_strategy() -> BoxedStrategy<PStep> {
 
 pub fn plan_strategy() -> BoxedStrategy<Vec<PStep>> {
     prop_oneof![
-        2 => Just(vec![PStep::Rest]),
-        5 => vec(pstep_strategy(), 1..6),
+        20 => Just(vec![PStep::Rest]),
+        50 => vec(pstep_strategy(), 1..6),
+        // long runs: a chunk, then dozens to hundreds of empty chunks (or Pendings), then the rest;
+        // and a range handed over in dozens of equal chunks
+        2 => (1u32..8, proptest::sample::select(&[31usize, 32, 33, 127, 128, 129, 300][..]), any::<bool>()).prop_map(|(k, n, pend)| {
+            let mut v = vec![PStep::Chunk(k)];
+            v.extend(std::iter::repeat(if pend { PStep::Pending } else { PStep::Empty }).take(n));
+            v.push(PStep::Rest);
+            v
+        }),
+        1 => (1u32..4, proptest::sample::select(&[31usize, 32, 33, 64, 128][..])).prop_map(|(k, n)| {
+            let mut v: Vec<PStep> = std::iter::repeat(PStep::Chunk(k)).take(n).collect();
+            v.push(PStep::Rest);
+            v
+        }),
     ]
     .boxed()
 }
@@ -560,8 +576,10 @@ pub fn request_strategy(ent: &EntitySpec, p: Profile) -> BoxedStrategy<ReqSpec> 
         maybe(p.cond, date_value(ent.mtime)),
         // the request's HTTP version (serve never looks at it)
         prop_oneof![5 => Just(0u8), 1 => 1u8..=4],
+        // the order of the header lines in the request
+        any::<u32>(),
     )
-        .prop_map(|(method, range, if_range, im, inm, ims, ius, version)| {
+        .prop_map(|(method, range, if_range, im, inm, ims, ius, version, order)| {
             let mut r = ReqSpec {
                 method,
                 headers: vec![],
@@ -584,6 +602,14 @@ pub fn request_strategy(ent: &EntitySpec, p: Profile) -> BoxedStrategy<ReqSpec> 
             }
             if let Some(v) = ius {
                 r.headers.push(("if-unmodified-since".into(), v));
+            }
+            // half of the requests in the order above (Range first), half in a shuffled order
+            if order & 1 == 1 {
+                let n = r.headers.len();
+                for i in 0..n {
+                    let j = (crate::util::mix(order as u64, i as u64) % n as u64) as usize;
+                    r.headers.swap(i, j);
+                }
             }
             r
         })
